@@ -187,22 +187,42 @@ def run(ctx):
     else:
         ctx.violation("R17.1", "conjure_error", "anchor|as_str", "ErrorCode::as_str not found")
     # ---------------- R17.2 partition
+    # the builder is the private function that receives the error type's safe-argument list (`&[&str]`); it is decided with its
+    # private helpers (constructors, classification helpers), combinators and closures spliced in
+    from .. import inline as _inline
+
+    def final_fields(x):
+        """{field name: operand stored into it} for safe_params / unsafe_params: a later field store wins over the struct literal"""
+        out = {}
+        for bb, j, s in x.stmts():
+            r = s["r"]
+            if r.get("agg") == "adt":
+                a_ = F.adt(r["adt"])
+                if a_ and a_["kind"] == "struct":
+                    names_ = [f_["name"] for f_ in a_["variants"][0]["fields"]]
+                    if "safe_params" in names_ and "unsafe_params" in names_ and len(r["ops"]) == len(names_):
+                        for k_ in ("safe_params", "unsafe_params"):
+                            out.setdefault(k_, r["ops"][names_.index(k_)])
+        for bb, j, s in x.stmts():
+            for e_ in place_proj(s["d"]):
+                if isinstance(e_, dict) and e_.get("n") in ("safe_params", "unsafe_params") and "use" in s["r"]:
+                    out[e_["n"]] = s["r"]["use"]
+        return out
+    cands = [x for x in ce.bodies if x.kind == "assoc_fn" and x.impl and x.id.startswith("conjure_error::error::") and x.d.get("vis") != "pub"
+             and any(tystr(x.local_ty(k)) in ("&[&str]", "&&[&str]") for k in range(1, x.argc + 1))]
     builders = []
-    for b in ce.bodies:
-        fields = {}
-        for bb, j, s in b.stmts():
-            for e in place_proj(s["d"]):
-                if isinstance(e, dict) and e.get("n") in ("safe_params", "unsafe_params") and "use" in s["r"]:
-                    fields[e["n"]] = s
-        if len(fields) == 2:
-            builders.append((b, fields))
+    for x in cands:
+        eb = _inline.expand(ce, x, depth=3, pred=lambda cb: cb.d.get("vis") != "pub", lower=True)
+        ff = final_fields(eb)
+        if len(ff) == 2:
+            builders.append((eb, ff))
     if len(builders) != 1:
-        ctx.violation("R17.2", "conjure_error", "anchor|service-builder", f"expected one function storing both safe_params and unsafe_params, found {len(builders)}")
+        ctx.violation("R17.2", "conjure_error", "anchor|service-builder", f"expected one private function taking the safe-argument list and producing both safe_params and unsafe_params, found {len(builders)}")
     else:
         b, fields = builders[0]
         cfg = CFG(b)
         tr = Tracer(b)
-        maps = {k: origin(tr, s["r"]["use"]) for k, s in fields.items()}
+        maps = {k: origin(tr, op_) for k, op_ in fields.items()}
         inserts = [(bb, t) for bb, t in b.calls() if t["call"]["name"] == "insert" and "HashMap" in t["call"]["def"] or t["call"]["name"] == "insert" and "BTreeMap" in t["call"]["def"]]
         seen = {}
         parts = [(bb, t) for bb, t in b.calls() if t["call"]["def"] == "core::iter::traits::iterator::Iterator::partition"]
@@ -243,7 +263,7 @@ def run(ctx):
                         why = f"membership test on the captured safe-argument list: {recv_ok}; key taken from the element: {key_ok}"
             # true elements -> field 0 -> safe_params, false -> field 1 -> unsafe_params
             def tuple_field(k):
-                for s_ in tr.sources(fields[k]["r"]["use"]):
+                for s_ in tr.sources(fields[k]):
                     if s_[0] == "field" and s_[1] == ("call", pbb):
                         for e in thaw(s_[2]):
                             if isinstance(e, dict) and "f" in e:
@@ -330,7 +350,7 @@ def run(ctx):
             # pipeline form: a closure turns (key, value) into Some((key, seed-string)) only when the seed succeeds
             # (filter_map), another one inserts the pairs it is given (fold / for_each)
             from .. import inline as _inline
-            eb, fam = _inline.expanded_family(ce, b, depth=2, pred=lambda cb: cb.d.get("vis") != "pub")
+            eb, fam = _inline.expanded_family(ce, b, depth=2, pred=lambda cb: cb.d.get("vis") != "pub" or cb.id.startswith("conjure_error::ser::"))
             prod = [(x, bb, t) for x in fam for bb, t in x.calls() if t["call"]["def"] == "serde_core::de::DeserializeSeed::deserialize"]
             cons = [(x, bb, t) for x in fam for bb, t in x.calls() if t["call"]["name"] == "insert_parameters"]
             if len(prod) == 1 and len(cons) == 1 and prod[0][0].kind == "closure" and cons[0][0].kind == "closure":
